@@ -104,9 +104,34 @@ def main(tier, replay):
         "set_up refuses exactly the unbalanced subset numbers when subset sensitivities are off, all orders of first "
         "requests give the same results (bitwise) on fresh objects whose members without initialiser are pre-set to 0 and to 1, with relative tolerance 3e-5 of "
         "sum|terms|. hist lines: ok/exception pattern of request histories against the flag machine of the model (both values of the indeterminate "
-        "members accepted). distinct = distinct op lines.",
+        "members accepted). "
+        "OBJECT RE-USE HISTORIES (one history per configuration, two in the thorough tier): ONE object is set_up 2-4 (thorough: up to 5) times; between the "
+        "set_ups one thing changes — nothing, num_subsets, use_subset_sensitivities, zero_seg0_end_planes, max_segment_num_to_process, "
+        "max_timing_pos_num_to_process, the measured data, the additive term (new / removed / added), the normalisation object (other kind), the target "
+        "image (a clone / another number of voxels or voxel size), everything (the data, geometry, projector pair, image, normalisation of the previous "
+        "configuration: other scanner, TOF <-> non-TOF, other TOF mashing, all setters called), or the data / projectors / additive term / normalisation of "
+        "the previous configuration WITHOUT calling the range setters — through all setters or only the setter concerned; sensitivity file names are set "
+        "(then every computing set_up writes them) and in two scripted histories per run (total file with use_subset_sensitivities off, subset files with "
+        "it on) and at random the next set_up of the SAME object reads them back (recompute_sensitivity := 0, optionally with new measured data). After "
+        "EVERY set_up: (i) 3-6 requests in Rng order (value, gradient, gradient+sensitivity, sensitivity, Hessian product, approximate Hessian) — "
+        "ok/exception pattern to the model's flag machine (`hist`), results bit for bit those of a fresh identically configured object (own projector pair) "
+        "serving that request first; (ii) everything listed above for a set-up object (all subsets: val/grad/gps/sens|sensdiv/hess/ahess lines, the total "
+        "sensitivity as a `sens` line over all viewgrams, segrange/tofrange/tofsens, subset-number range, full-data functions) to the model and the textbook "
+        "oracle, and bit for bit equal to the answers of a fresh identically configured object; acceptance/refusal of set_up equal to the fresh object's; "
+        "(iii) the model object `SensObj` (heap of images + subsensitivity_sptrs + sensitivity_sptr + recompute_sensitivity, model files) goes through the "
+        "same set_up (`hsetup`: setUpSens = resize, compute-or-read decision, compute_sensitivities, set_total_or_subset_sensitivities, file writing/reading) and "
+        "`hsub s` / `htot` compare get_subset_sensitivity(s) / get_sensitivity() with the state of the model object (bound as for `sens`); (iv) files a "
+        "computing set_up wrote are read back with read_from_file: = get_subset_sensitivity(s) resp. get_sensitivity() bit for bit, total file = sum of the subset "
+        "shares, and a second object that reads them answers everything of (ii) bit for bit like the writer. "
+        "KNOWN-CANDIDATE reuse:default-segment-or-TOF-range-...: data of another geometry given to a set-up object without calling the range setters (every run, "
+        "both directions). distinct = distinct op lines.",
         extra=dict(input_histogram=hist, near_threshold_not_compared=NEAR[0], indeterminate_flag_other_value=INDET[0]))
-    chk.assumptions += ["floating point rounding is not modelled (forward error bound instead)",
+    chk.assumptions += ["re-use histories: a fresh object 'configured identically' has the members of the re-used object (the TOF sensitivity switch, which has no public "
+                        "setter and stays on once a set_up switched it on, is copied); twin objects share the normalisation object and the data with the re-used "
+                        "object but have a projector pair of their own; has_same_characteristics of images read from file, the sensitivity file name \"1\" and "
+                        "set_subset_sensitivity_sptr are not part of the SensObj model; the list-mode objective "
+                        "(PoissonLogLikelihoodWithLinearModelForMeanAndListModeDataWithProjMatrixByBin) is not driven by this harness",
+                        "floating point rounding is not modelled (forward error bound instead)",
                         "which viewgrams belong to a subset is taken from the library's own subset scheme (C06); the oracle checks that they partition the data",
                         "explicit matrix rows come from ProjMatrixByBinUsingRayTracing itself (row correctness is C03/C04)",
                         "the factor of a data bin is the bin of the normalisation data with the same indices (TOF bin 0 for non-TOF normalisation data): that is the "
